@@ -323,40 +323,40 @@ ENTRIES = {
 ADDENDA = {
     "C01": "The converse direction also runs every bracket type alone and every ordered pair of types (nested and crossing). Multi-strand texts use higher bracket types and strands that begin with a closing bracket. Every seventh sequence carries placeholders and letters beyond ACGU (?, N, n, X, T, t) through the BPSEQ text round trip.",
     "C02": "Gen_StemFamily adds the stem-level family: every chord diagram of <= 4 (thorough 5) stems x a stem-length palette, and "
-           "stars in which one stem is crossed by 10-16 others (optimality by brute force where feasible, stability always). MC_SecStruct proves lemma L7 (no swap of two levels of a component improves a MILP-optimal assignment) and the trace clause NoSwapImproves applies it to every recorded assignment, including 30-32 stem stars.",
+           "stars in which one stem is crossed by 10-16 others (optimality by brute force where feasible, stability always). MC_SecStruct proves lemma L7 (no swap of two levels of a component improves a MILP-optimal assignment) and the trace clause NoSwapImproves applies it to every recorded assignment, including 30-32 stem stars. Ladders of six and seven stems whose lengths do not descend (letter levels) are included.",
     "C03": "Structure variants also include base-only residues, residues that differ only by insertion code, residues listed in two "
            "blocks, and threshold probes at three scales (delta, delta/6, delta/60). Zero-occupancy base atoms, chains with longer names, and the DNA structure 6RS3 are among the quick inputs. Clause ContactTablesConform: the implementation's donor / acceptor / edge tables, as data, equal the tables of Annot.tla by which every measured contact is classified; variants zeronum and noring apply.",
-    "C04": "Same widened variants and three-scale probes as C03.",
+    "C04": "Same widened variants and three-scale probes as C03. A two-model structure numbered 0 and 1 with model 0 analysed; every third structure was annotated before and the caller emptied the lists it got.",
     "C05": "Presentation.tla also has InsertCodes (order-preserving renumbering that introduces insertion codes); some bases carry "
-           "unresolvable residue names so that base letters are detected from atoms; quick draws 140 behaviours. Every behaviour is extended by the format switches enabled at its end; a base with legacy atom names is included; presentations PDB cannot carry are marked undeliverable by the spec. Presentation.tla has the variable records / action ToggleRecords: a text format with and without the records that describe the polymer (MODRES; entity, entity_poly with the canonical sequence, pdbx_struct_mod_residue) must give the same annotation; one base carries 4-thiouridines.",
-    "C06": "Corpus variants with abasic nucleotides (base letter '?') are included. Every seventh case is a list merged from two sources (entries alternate between label+auth and auth-only naming). Every third mapping is asked for its extended rows first; entries that spell a blank insertion code the external tools' way are optional (the case must be in order for some reading of them); corpus variants with residues N and N^A alike in name.",
+           "unresolvable residue names so that base letters are detected from atoms; quick draws 140 behaviours. Every behaviour is extended by the format switches enabled at its end; a base with legacy atom names is included; presentations PDB cannot carry are marked undeliverable by the spec. Presentation.tla has the variable records / action ToggleRecords: a text format with and without the records that describe the polymer (MODRES; entity, entity_poly with the canonical sequence, pdbx_struct_mod_residue) must give the same annotation; one base carries 4-thiouridines. PDB texts use the layout of deposited files (TER closes the polymer, hetero groups follow); records may also be the modification records alone; one fixed tour per base visits every relabelling action in both text formats.",
+    "C06": "Corpus variants with abasic nucleotides (base letter '?') are included. Every seventh case is a list merged from two sources (entries alternate between label+auth and auth-only naming). Every third mapping is asked for its extended rows first; entries that spell a blank insertion code the external tools' way are optional (the case must be in order for some reading of them); corpus variants with residues N and N^A alike in name. Lists whose two classifications disagree (cWW on complementary letters under a non-canonical Saenger class) are generated.",
     "C07": "The motif_extractor CLI is run plain and with --remove-isolated / --remove-pseudoknots in every combination; "
-           "Trace_Elements derives the structure the tool must print and decompose.",
-    "C08": "Every third PDB rendering numbers its records from just below 10000 (five-digit serials). Three alternate locations with non-monotone occupancies, and model numbers that do not ascend in file order, are generated. Clash chains (falling / rising occupancies: the lower atom of a clashing pair is never kept), alternate conformers written as a block after the next residue, and handles already used by an earlier reader call are part of the domain.",
+           "Trace_Elements derives the structure the tool must print and decompose. Clause SingleInteriorsUnpaired; the command-line tool also reads dot-bracket files whose levels are not the library's choice.",
+    "C08": "Every third PDB rendering numbers its records from just below 10000 (five-digit serials). Three alternate locations with non-monotone occupancies, and model numbers that do not ascend in file order, are generated. Clash chains (falling / rising occupancies: the lower atom of a clashing pair is never kept), alternate conformers written as a block after the next residue, and handles already used by an earlier reader call are part of the domain. mmCIF tables may alternate between their models; every fifth case is written over a file the process read before with other content; every second PDB rendering puts TER before the hetero groups.",
     "C09": "Tables also use a blank chain identifier (PDB -> PDB paths, modelled in MC_PdbText with a negative control for the repaired "
-           "TER column defect), model numbering from 0 and serials that end exactly at the limit (always through the splitter).",
+           "TER column defect), model numbering from 0 and serials that end exactly at the limit (always through the splitter). Two of five generated mmCIF tables number their residues 1..n per chain in label_seq_id.",
     "C10": "Also: a 99 984-atom table with interleaved chains (serials run out during renumbering), row selections made after parsing, "
            "label_* names differing from the author names, and two-model files of which only one model exceeds the limits "
-           "(one trace case per model through splitter.main). Residues distinguished only by insertion codes at the 9999/10000 boundary are included; read-back of occupancy/B tolerates the 0.01 of the PDB columns. Half of the row selections are made after the caller asked can_write_pdb about the whole table; multi-model tables whose models are not congruent are generated. unifier.main --format PDB (an observation point of the property) is run on pairs of mmCIF files that need fitting, one trace case per file.",
+           "(one trace case per model through splitter.main). Residues distinguished only by insertion codes at the 9999/10000 boundary are included; read-back of occupancy/B tolerates the 0.01 of the PDB columns. Half of the row selections are made after the caller asked can_write_pdb about the whole table; multi-model tables whose models are not congruent are generated. unifier.main --format PDB (an observation point of the property) is run on pairs of mmCIF files that need fitting, one trace case per file. Atom ids that do not ascend (the largest one not last) are generated.",
     "C11": "Synthetic placements include three donors of one base in contact with one phosphate; the C03 variants (insertion codes, "
-           "split residues, base-only residues) apply. Variants zeronum (a residue numbered 0 inside every chain) and noring (bases without the ring atoms behind the base-phosphate class); interactions touching a residue handed over in two blocks are judged for well-formedness and contact only. ContactTablesConform as in C03.",
+           "split residues, base-only residues) apply. Variants zeronum (a residue numbered 0 inside every chain) and noring (bases without the ring atoms behind the base-phosphate class); interactions touching a residue handed over in two blocks are judged for well-formedness and contact only. ContactTablesConform as in C03. Variant prefixchains (five-character chain names agreeing in their first four characters).",
     "C12": "A tenth operation, convert_to_dot_bracket(None), is part of the specification and of every history family; every second "
            "history runs after an unrelated sibling object (same pairs, other sequence and length) was solved in the same process; "
            "structures with 5 and 6 mutually crossing stems are included. Sequences carry letters beyond ACGU.",
     "C13": "Structures include one with 13 regions (two-digit indices in the MILP's constraint names) and sequences with letters "
-           "beyond ACGU. A four-stem chain whose conflict edges are found out of order is among the fixed structures.",
+           "beyond ACGU. A four-stem chain whose conflict edges are found out of order is among the fixed structures. Every third structure reaches the library as a dot-bracket text with non-canonical levels; a knot with a nested hairpin and a stem crossing both is among the fixed structures.",
     "C14": "Emission points v2_fit / v2_fit_write_pdb (the PDB text of a table that had to be fitted) are observed; alternate seeds meet "
            "their inputs in the opposite order and twin inputs (same component names, complete / without bases) share an interpreter. 4-thiouridines (base letter rests on a tie-break) are among the twin inputs. A structure with an 8-region conflict component and several hundred notations is observed; even repetitions ask a fresh mapping for its extended rows first.",
     "C15": "Consecutive residues exactly 2.4 A apart must be answered alike by all four readings (BoundaryAgree); tables with repeated "
-           "atom records form a second domain (DupDomain) judged for agreement only (DupFailing). Clause ChiCoverage: a standard nucleotide holding its glycosidic atoms has a chi in every reading; free nucleotides in chains of their own and PDB renderings numbered from just below 10000 are generated.",
+           "atom records form a second domain (DupDomain) judged for agreement only (DupFailing). Clause ChiCoverage: a standard nucleotide holding its glycosidic atoms has a chi in every reading; free nucleotides in chains of their own and PDB renderings numbered from just below 10000 are generated. Sodium ions (names that read like a missing-value marker) and coordinates that fill their PDB columns are generated.",
     "C16": "For corpus structures the list rendered by Mapping2D3D.all_dot_brackets and the BpSeq's own list asked afterwards are "
            "validated too.",
     "C17": "CLI results are judged on an independent reading of the input file; generated mmCIF carries entity tables and nucleotide "
-           "ligands in a non-polymer entity; the pair family has a distance class zero (coincident atoms) and residues N / N^A. Occupancy splits that are inexact in binary and symmetry mates that print alike in the CSV (trace kind csvcount) are included. Three-residue configurations with the middle residue in another chain give clashes between two chains in both orders.",
+           "ligands in a non-polymer entity; the pair family has a distance class zero (coincident atoms) and residues N / N^A. Occupancy splits that are inexact in binary and symmetry mates that print alike in the CSV (trace kind csvcount) are included. Three-residue configurations with the middle residue in another chain give clashes between two chains in both orders. Crowds of twenty atoms within 2.5 A are part of the pair-palette family.",
     "C18": "Trace kind 'stem' binds the inter-stem torsion of Mapping2D3D.calculate_inter_stem_parameters (closest endpoints, IUPAC "
            "dihedral of the documented centroids, swapping the stems keeps the value); clauses SameAtomsBothPaths, "
            "ChiOnlyFromGlycosidicAtoms and TableRowPerResidue; quick corpus includes 1ehz, 4qln.pdb, 2HY9 and atom-drop variants. Corpus variants also rename residues to N and give residues a shared number with insertion codes. Every second structure has been annotated before its torsions are read; references are computed from the coordinate fields.",
     "C19": "Generated listings repeat lines and add coinciding lines (same residues, other label). DSSR documents with several models numbered off their positions are asked for by model number.",
     "C20": "The CLI is also run in place (output path = input path; MC_CifEdit models it, variant CliOpensOutputFirst is a negative "
-           "control); documents with several data blocks and mixed-case data names are generated. Alphabets that look like ranges are among the --values pools. Alphabets shorter than the column's distinct values must be refused.",
+           "control); documents with several data blocks and mixed-case data names are generated. Alphabets that look like ranges are among the --values pools. Alphabets shorter than the column's distinct values must be refused. Text values whose lines end in blanks are in the pools.",
 }
